@@ -168,3 +168,74 @@ PROPS["C06"] = {
                 "the cfg(json_syntax_verif) hook Object::verif_index_dump reads rep/other of every bucket"],
     "assumptions": ["removal iterators are driven by the caller 0, 1, 2 or all times and then dropped (mem::forget of an iterator is outside the property)"],
 }
+
+
+PROPS["C11"] = {
+    "id": "C11", "family": "c11", "allow_axioms": [],
+    "nshards": {"quick": 16, "thorough": 16},
+    "nontrivial": lambda case, impl: impl.startswith("V=") and (" A" in impl or " O" in impl) or impl.startswith("err@"),
+    "rule": "every string of <= 5 (quick) / <= 6 (thorough) tokens over the 14-token alphabet that starts with a "
+            "container opener or a string; the corpus files <= 8 KiB; grammar-based random documents rich in empty "
+            "containers and duplicate keys. For each accepted document: volume, traverse count, count of containers, the "
+            "traversal (index + fragment kind), get_fragment for every index 0..count+2, and for every array and object "
+            "(walked with the offsets the mapped iterators themselves yield) the offsets of iter_mapped, of "
+            "get_mapped_entries_with_index for every key occurring plus an absent key, the four get_unique_mapped* "
+            "results; flag S = every yielded offset's span re-parses to exactly that element (value, key, or entry) with no "
+            "surrounding white space; flag per key = the seven other mapped lookups are projections of "
+            "get_mapped_entries_with_index. Conversions: 9 Rust types (Vec/Option/BTreeMap/Box over bool, (), String leaves) "
+            "on generated documents with each of 6 wrong-kind tokens planted at every leaf position and at the root; "
+            "observable: ok or (offset, expected kind, found kind). Non-trivial: accepted documents with a container, or a "
+            "conversion error. distinct = distinct case lines.",
+    "trusted": ["keyed lookups go through an object rebuilt by FromIterator in the model (C06: any reachable object answers as a scan)",
+                "the model computes mapped iterators eagerly; the implementation's are lazy (differs only on ill-shaped code maps, which the theorems exclude)"],
+    "assumptions": [],
+}
+
+
+PROPS["C14"] = {
+    "id": "C14", "family": "c14", "allow_axioms": [],
+    "nshards": {"quick": 16, "thorough": 16},
+    "nontrivial": lambda case, impl: "ab=0" in impl or case.startswith("hh"),
+    "rule": "all triples over 26 small values spanning every variant and the string-order corner cases (U+E000 vs U+10000, "
+            "U+FFFF, DEL vs U+0080, prefix strings, numbers compared as byte strings) [third operand restricted to 16 in "
+            "quick runs]; random values with near copies differing in one leaf, one key (appending U+10000 / U+E000, or "
+            "emptied), one position (swap), or one length; pairs of operation histories ending in the same entry list by "
+            "different routes (mixed history vs from_vec of its result vs push_front in reverse) and a differing one. "
+            "Observable per pair: ==, cmp, partial_cmp, <, <=, >, >=, !=, equality of SipHash (DefaultHasher), equality of the "
+            "recorded write streams; for every first operand the exact write stream the derived Hash makes (compared with "
+            "the model's hash_stream); for histories also both entry lists and whether the bucket dumps differ. "
+            "Non-trivial: a pair of unequal values, or a history pair. distinct = distinct case lines.",
+    "trusted": ["std's derive(PartialEq, Eq, PartialOrd, Ord, Hash) expansion; SipHash collisions are not expected on the explored pairs "
+                "(hash equality is only demanded for equal values; for unequal values the model predicts unequal hashes, a "
+                "mismatch there would be reported and is then a 2^-64 event)"],
+    "assumptions": [],
+}
+
+
+def c03_known(case, impl, model, spec):
+    t = case.split(" ")
+    if t[0] == "d" and t[1] in ("arr_garbage", "obj_garbage", "arr_sibling") and int(t[2]) >= 1000 \
+            and impl.startswith("ABORT") and model == "ERR":
+        return "C03-drop-after-deep-close"
+    return None
+
+
+PROPS["C03"] = {
+    "id": "C03", "family": "c03", "allow_axioms": [],
+    "nshards": {"quick": 16, "thorough": 16},
+    "nontrivial": lambda case, impl: len(case) > 12,
+    "known": c03_known,
+    "rule": "outcome class (Ok/Err; a panic or abort is a violation) of parse_str_with / parse_utf8_with over a counting "
+            "iterator / parse_slice_with on the shared parse suite under all four option records plus random byte strings "
+            "(structural bytes, UTF-8 lead/continuation boundaries); the counting iterator checks that next() is called at "
+            "most n+4 times, never after an Err item, and that a stream error planted in the middle stops all pulling; "
+            "traverse().count() equals the code map length. Deep nesting: arrays, objects, mixed, wide-and-deep, closed and "
+            "unclosed, and closed-then-error shapes at depths 1, 2, 64, 500, 10^3, 10^5, 10^6 (thorough adds 10^4, 2*10^6) "
+            "parsed and traversed in a child process inside a thread with a 64 KiB stack, both entry points, strict and "
+            "flexible options. Non-trivial: inputs of more than 2 characters. distinct = distinct case lines.",
+    "trusted": PARSE_TRUST + ["machine stack consumption and compiler-generated drop glue are runtime behaviour: observed by "
+                              "executing the implementation in small-stack child processes at sampled depths (this part is "
+                              "testing in support of the theorems, which give totality, panic-freedom and linear fuel at every depth)"],
+    "assumptions": ["deep-nesting expectations for depth > 500 are the closed form (Ok with the fragment count / Err) that "
+                    "the model confirms at depths <= 500; the list-based model is not run at 10^6"],
+}
